@@ -255,4 +255,3 @@ def rules(ctx):
         Rule("R09.c", "get_max_int_size(T) = min(max(T), u64::MAX) for every width; users reject exactly values > max", 15, r09c),
         Rule("R09.d", "weak literal widening thresholds do not exceed the maximum of the type codegen gives weak ints", 6, r09d),
     ]
-READY = False
